@@ -7,74 +7,67 @@ namespace ArvVerif.C04
 
 /-! ### ghost state: when was each hash last acknowledged -/
 
-/-- last acknowledgement of a hash: its time, and whether it was a PUT (which vouches for the
-content) or a TOUCH (which does not look at the content) -/
-abbrev Ghost := Hash → Option (Time × Bool)
+abbrev Ghost := Hash → Option Time
 
 /-- the hash a request acknowledges (PUT with the right body / TOUCH answered 200) -/
-def ackOf : Op → Res → Option (Hash × Bool)
-  | .put h true, .code 200 => some (h, true)
-  | .touch h, .code 200 => some (h, false)
+def ackOf : Op → Res → Option Hash
+  | .put h true, .code 200 => some h
+  | .touch h, .code 200 => some h
   | _, _ => none
 
 def ghostStep (g : Ghost) (now : Time) (op : Op) (r : Res) : Ghost :=
   match ackOf op r with
-  | some (h, p) => fun h' => if h' = h then some (now, p) else g h'
+  | some h => fun h' => if h' = h then some now else g h'
   | none => g
 
 def runG (c : Cfg) : St → Ghost → List Op → St × Ghost
   | s, g, [] => (s, g)
   | s, g, op :: ops => runG c (step c s op).1 (ghostStep g s.now op (step c s op).2) ops
 
-/-- some volume holds a copy of `h` stamped at or after `t` (an intact one if `p`) -/
-def HoldsL (vs : List Vol) (h : Hash) (t : Time) (p : Bool) : Prop :=
-  ∃ v ∈ vs, ∃ f, v.blocks h = some f ∧ t ≤ f.mtime ∧ (p = true → f.good = true)
+/-- some volume holds a copy of `h` stamped at or after `t` -/
+def HoldsL (vs : List Vol) (h : Hash) (t : Time) : Prop :=
+  ∃ v ∈ vs, ∃ f, v.blocks h = some f ∧ t ≤ f.mtime
 
 /-- THE invariant: every acknowledged hash whose TTL has not run out is still on the server, with a
-timestamp not older than the acknowledgement (and, after a PUT, with intact content) -/
+timestamp not older than the acknowledgement -/
 def Prot (c : Cfg) (s : St) (g : Ghost) : Prop :=
-  ∀ h t p, g h = some (t, p) → t ≤ s.now ∧ (s.now < t + c.ttl → HoldsL s.vols h t p)
-
-/-- the history never lets `untrash` rename a trashed copy over an existing block file -/
-def SafeOp (s : St) : Op → Prop
-  | .untrash h => ∀ v ∈ s.vols, v.ro = false → v.blocks h = none ∨ minEntry h v.trash = none
-  | _ => True
-
-def SafeOps (c : Cfg) : St → List Op → Prop
-  | _, [] => True
-  | s, op :: ops => SafeOp s op ∧ SafeOps c (step c s op).1 ops
+  ∀ h t, g h = some t → t ≤ s.now ∧ (s.now < t + c.ttl → HoldsL s.vols h t)
 
 def Keeps (h : Hash) (t : Time) (v v' : Vol) : Prop :=
-  ∀ f, v.blocks h = some f → t ≤ f.mtime → ∃ f', v'.blocks h = some f' ∧ t ≤ f'.mtime ∧ (f.good = true → f'.good = true)
+  ∀ f, v.blocks h = some f → t ≤ f.mtime → ∃ f', v'.blocks h = some f' ∧ t ≤ f'.mtime
 
-theorem keeps_refl (h : Hash) (t : Time) (v : Vol) : Keeps h t v v := fun f hf ht => ⟨f, hf, ht, id⟩
+theorem keeps_refl (h : Hash) (t : Time) (v : Vol) : Keeps h t v v := fun f hf ht => ⟨f, hf, ht⟩
 
-theorem holds_map {vs : List Vol} {F : Vol → Vol} {h : Hash} {t : Time} {p : Bool}
-    (hk : ∀ v ∈ vs, Keeps h t v (F v)) (hh : HoldsL vs h t p) : HoldsL (vs.map F) h t p := by
-  obtain ⟨v, hv, f, hf, ht, hg⟩ := hh
-  obtain ⟨f', hf', ht', hg'⟩ := hk v hv f hf ht
-  exact ⟨F v, List.mem_map_of_mem hv, f', hf', ht', fun hp => hg' (hg hp)⟩
+theorem holds_map {vs : List Vol} {F : Vol → Vol} {h : Hash} {t : Time}
+    (hk : ∀ v ∈ vs, Keeps h t v (F v)) (hh : HoldsL vs h t) : HoldsL (vs.map F) h t := by
+  obtain ⟨v, hv, f, hf, ht⟩ := hh
+  obtain ⟨f', hf', ht'⟩ := hk v hv f hf ht
+  exact ⟨F v, List.mem_map_of_mem hv, f', hf', ht'⟩
+
+theorem prot_map' {c : Cfg} {s : St} {g : Ghost} (hp : Prot c s g) (F : Vol → Vol) (rr' now' : Nat)
+    (hnow : s.now ≤ now')
+    (hk : ∀ h t, g h = some t → s.now < t + c.ttl → ∀ v ∈ s.vols, Keeps h t v (F v)) :
+    Prot c { vols := s.vols.map F, now := now', rr := rr' } g := by
+  intro h t hg
+  obtain ⟨h1, h2⟩ := hp h t hg
+  exact ⟨Nat.le_trans h1 hnow, fun hlt => holds_map (hk h t hg (Nat.lt_of_le_of_lt hnow hlt)) (h2 (Nat.lt_of_le_of_lt hnow hlt))⟩
 
 theorem prot_map {c : Cfg} {s : St} {g : Ghost} (hp : Prot c s g) (F : Vol → Vol) (rr' : Nat)
-    (hk : ∀ h t p, g h = some (t, p) → s.now < t + c.ttl → ∀ v ∈ s.vols, Keeps h t v (F v)) :
-    Prot c { vols := s.vols.map F, now := s.now, rr := rr' } g := by
-  intro h t p hg
-  obtain ⟨h1, h2⟩ := hp h t p hg
-  exact ⟨h1, fun hlt => holds_map (hk h t p hg hlt) (h2 hlt)⟩
+    (hk : ∀ h t, g h = some t → s.now < t + c.ttl → ∀ v ∈ s.vols, Keeps h t v (F v)) :
+    Prot c { vols := s.vols.map F, now := s.now, rr := rr' } g :=
+  prot_map' hp F rr' s.now (Nat.le_refl _) hk
 
-/-- acknowledging `h` now: allowed when a copy stamped `now` exists (intact, for a PUT) -/
-theorem prot_ack {c : Cfg} {s : St} {g : Ghost} (hp : Prot c s g) (h : Hash) (p : Bool)
-    (hh : HoldsL s.vols h s.now p) :
-    Prot c s (fun h' => if h' = h then some (s.now, p) else g h') := by
-  intro h' t p' hg
+/-- acknowledging `h` now: allowed when a copy stamped `now` exists -/
+theorem prot_ack {c : Cfg} {s : St} {g : Ghost} (hp : Prot c s g) (h : Hash) (hh : HoldsL s.vols h s.now) :
+    Prot c s (fun h' => if h' = h then some s.now else g h') := by
+  intro h' t hg
   by_cases he : h' = h
   · subst he
-    simp only [if_true, Option.some.injEq, Prod.mk.injEq] at hg
-    obtain ⟨h1, h2⟩ := hg
-    subst h1; subst h2
+    simp only [if_true, Option.some.injEq] at hg
+    subst hg
     exact ⟨Nat.le_refl _, fun _ => hh⟩
   · simp only [he, if_false] at hg
-    exact hp h' t p' hg
+    exact hp h' t hg
 
 /-! ### per-volume lemmas -/
 
@@ -90,24 +83,22 @@ theorem keeps_touch (h h' : Hash) (t now : Time) (v : Vol) (ht : t ≤ now) :
   intro f hf hft
   unfold Vol.touch
   split
-  · exact ⟨f, hf, hft, id⟩
+  · exact ⟨f, hf, hft⟩
   · split
-    · exact ⟨f, hf, hft, id⟩
+    · exact ⟨f, hf, hft⟩
     · rename_i f0 hf0
       by_cases he : h' = h
       · subst he
-        rw [hf] at hf0
-        cases hf0
-        exact ⟨{ f with mtime := now }, by simp [Vol.setBlock], ht, id⟩
-      · exact ⟨f, by simpa [Vol.setBlock, he] using hf, hft, id⟩
+        exact ⟨{ f0 with mtime := now }, by simp [Vol.setBlock], ht⟩
+      · exact ⟨f, by simpa [Vol.setBlock, he] using hf, hft⟩
 
 theorem keeps_write (h h' : Hash) (t now : Time) (v : Vol) (ht : t ≤ now) :
     Keeps h' t v (v.write h now) := by
   intro f hf hft
   by_cases he : h' = h
   · subst he
-    exact ⟨{ good := true, mtime := now }, by simp [Vol.write, Vol.setBlock], ht, fun _ => rfl⟩
-  · exact ⟨f, by simpa [Vol.write, Vol.setBlock, he] using hf, hft, id⟩
+    exact ⟨{ good := true, mtime := now }, by simp [Vol.write, Vol.setBlock], ht⟩
+  · exact ⟨f, by simpa [Vol.write, Vol.setBlock, he] using hf, hft⟩
 
 theorem keeps_if {h : Hash} {t : Time} {v : Vol} {p : Prop} [Decidable p] {v' : Vol}
     (hk : Keeps h t v v') : Keeps h t v (if p then v' else v) := by
@@ -143,7 +134,7 @@ theorem keeps_trashBlock (c : Cfg) (now : Time) (v : Vol) (h h' : Hash) (t : Tim
     (hlt : now < t + c.ttl) : Keeps h' t v (Vol.trashBlock c now v h).2 := by
   intro f hf hft
   cases trashBlock_blocks c now v h h' with
-  | inl heq => exact ⟨f, by rw [heq]; exact hf, hft, id⟩
+  | inl heq => exact ⟨f, by rw [heq]; exact hf, hft⟩
   | inr hx =>
     obtain ⟨he, _, _, _, f0, hf0, hold⟩ := hx
     subst he
@@ -181,27 +172,24 @@ theorem sweepVol_blocks (c : Cfg) (now : Time) (v : Vol) : (sweepVol c now v).bl
 
 theorem keeps_sweep (c : Cfg) (now : Time) (v : Vol) (h : Hash) (t : Time) : Keeps h t v (sweepVol c now v) := by
   intro f hf hft
-  exact ⟨f, by rw [sweepVol_blocks]; exact hf, hft, id⟩
+  exact ⟨f, by rw [sweepVol_blocks]; exact hf, hft⟩
 
-theorem keeps_untrashVol (v : Vol) (h h' : Hash) (t : Time)
-    (hsafe : v.ro = false → v.blocks h = none ∨ minEntry h v.trash = none) :
-    Keeps h' t v (untrashVol h v) := by
+/-- Untrash replaces whatever is at the block path by a copy stamped `now` (fix f7a86a4) -/
+theorem keeps_untrashVol (v : Vol) (h h' : Hash) (t now : Time) (ht : t ≤ now) :
+    Keeps h' t v (untrashVol h now v) := by
   intro f hf hft
   unfold untrashVol
   split
-  · exact ⟨f, hf, hft, id⟩
-  · rename_i hro
-    have hro' : v.ro = false := by simpa using hro
-    unfold Vol.untrash
-    cases hsafe hro' with
-    | inr hnone => simp only [hnone, Option.getD_none]; exact ⟨f, hf, hft, id⟩
-    | inl hb =>
-      split
-      · exact ⟨f, hf, hft, id⟩
-      · simp only [Option.getD_some]
-        have hne : h' ≠ h := by
-          intro he; subst he; rw [hb] at hf; cases hf
-        exact ⟨f, by simpa [Vol.setBlock, hne] using hf, hft, id⟩
+  · exact ⟨f, hf, hft⟩
+  · unfold Vol.untrash
+    split
+    · exact ⟨f, hf, hft⟩
+    · rename_i e _
+      simp only [Option.getD_some]
+      by_cases he : h' = h
+      · subst he
+        exact ⟨{ e.file with mtime := now }, by simp [Vol.setBlock], ht⟩
+      · exact ⟨f, by simpa [Vol.setBlock, he] using hf, hft⟩
 
 /-! ### server-level lemmas -/
 
@@ -242,18 +230,18 @@ theorem firstHolding_some {h : Hash} {ws : List Vol} {id : Nat} (hc : firstHoldi
       exact ⟨v, List.mem_cons_of_mem _ hv, hx⟩
 
 /-- after touching the volumes with id `id`, a copy of `h` stamped `now` exists -/
-theorem holds_after_touch {vs : List Vol} {v : Vol} {h : Hash} {now : Time} {f : File} {p : Bool}
-    (hv : v ∈ vs) (hro : v.ro = false) (hf : v.blocks h = some f) (hg : p = true → f.good = true) :
-    HoldsL (updVol vs v.id (fun w => (w.touch h now).getD w)) h now p := by
-  refine ⟨(v.touch h now).getD v, ?_, { f with mtime := now }, ?_, Nat.le_refl _, hg⟩
+theorem holds_after_touch {vs : List Vol} {v : Vol} {h : Hash} {now : Time} {f : File}
+    (hv : v ∈ vs) (hro : v.ro = false) (hf : v.blocks h = some f) :
+    HoldsL (updVol vs v.id (fun w => (w.touch h now).getD w)) h now := by
+  refine ⟨(v.touch h now).getD v, ?_, { f with mtime := now }, ?_, Nat.le_refl _⟩
   · unfold updVol
     have := List.mem_map_of_mem (f := fun w => if w.id = v.id then (w.touch h now).getD w else w) hv
     simpa using this
   · simp [Vol.touch, hro, hf, Vol.setBlock]
 
-theorem holds_after_write {vs : List Vol} {v : Vol} {h : Hash} {now : Time} {p : Bool} (hv : v ∈ vs) :
-    HoldsL (updVol vs v.id (fun w => w.write h now)) h now p := by
-  refine ⟨v.write h now, ?_, { good := true, mtime := now }, ?_, Nat.le_refl _, fun _ => rfl⟩
+theorem holds_after_write {vs : List Vol} {v : Vol} {h : Hash} {now : Time} (hv : v ∈ vs) :
+    HoldsL (updVol vs v.id (fun w => w.write h now)) h now := by
+  refine ⟨v.write h now, ?_, { good := true, mtime := now }, ?_, Nat.le_refl _⟩
   · unfold updVol
     have := List.mem_map_of_mem (f := fun w => if w.id = v.id then w.write h now else w) hv
     simpa using this
@@ -264,9 +252,9 @@ theorem holds_after_write {vs : List Vol} {v : Vol} {h : Hash} {now : Time} {p :
 theorem step_now_ge (c : Cfg) (s : St) (op : Op) : s.now ≤ (step c s op).1.now := by
   cases op <;> simp only [step] <;> (repeat' split) <;> simp
 
-theorem prot_step {c : Cfg} {s : St} {g : Ghost} (hp : Prot c s g) (op : Op) (hsafe : SafeOp s op) :
+theorem prot_step {c : Cfg} {s : St} {g : Ghost} (hp : Prot c s g) (op : Op) :
     Prot c (step c s op).1 (ghostStep g s.now op (step c s op).2) := by
-  have hle : ∀ h t p, g h = some (t, p) → t ≤ s.now := fun h t p hg => (hp h t p hg).1
+  have hle : ∀ h t, g h = some t → t ≤ s.now := fun h t hg => (hp h t hg).1
   cases op with
   | put h goodBody =>
     simp only [step]
@@ -280,24 +268,23 @@ theorem prot_step {c : Cfg} {s : St} {g : Ghost} (hp : Prot c s g) (op : Op) (hs
         split
         · -- compare-and-touch
           rename_i id hcat
-          obtain ⟨v, hvw, hid, f, hf, hgood⟩ := compareAndTouch_some hcat
+          obtain ⟨v, hvw, hid, f, hf, _⟩ := compareAndTouch_some hcat
           obtain ⟨hv, hro⟩ := mem_writables hvw
           subst hid
           have h1 : Prot c { vols := s.vols.map (fun w => if w.id = v.id then (w.touch h s.now).getD w else w),
                              now := s.now, rr := s.rr } g :=
-            prot_map hp _ _ (fun h' t p hg _ w _ => keeps_if (keeps_touch h h' t s.now w (hle h' t p hg)))
+            prot_map hp _ _ (fun h' t hg _ w _ => keeps_if (keeps_touch h h' t s.now w (hle h' t hg)))
           simp only [ghostStep, ackOf]
-          exact prot_ack (s := { vols := _, now := s.now, rr := s.rr }) h1 h true
-            (holds_after_touch hv hro hf (fun _ => hgood))
+          exact prot_ack (s := { vols := _, now := s.now, rr := s.rr }) h1 h (holds_after_touch hv hro hf)
         · split
           · rename_i w hw
             have hwm : w ∈ writables s.vols := List.mem_of_getElem? hw
             obtain ⟨hv, _⟩ := mem_writables hwm
             have h1 : Prot c { vols := s.vols.map (fun x => if x.id = w.id then x.write h s.now else x),
                                now := s.now, rr := s.rr + 1 } g :=
-              prot_map hp _ _ (fun h' t p hg _ x _ => keeps_if (keeps_write h h' t s.now x (hle h' t p hg)))
+              prot_map hp _ _ (fun h' t hg _ x _ => keeps_if (keeps_write h h' t s.now x (hle h' t hg)))
             simp only [ghostStep, ackOf]
-            exact prot_ack (s := { vols := _, now := s.now, rr := s.rr + 1 }) h1 h true (holds_after_write hv)
+            exact prot_ack (s := { vols := _, now := s.now, rr := s.rr + 1 }) h1 h (holds_after_write hv)
           · simpa [ghostStep, ackOf] using hp
   | touch h =>
     simp only [step]
@@ -308,10 +295,9 @@ theorem prot_step {c : Cfg} {s : St} {g : Ghost} (hp : Prot c s g) (op : Op) (hs
       subst hid
       have h1 : Prot c { vols := s.vols.map (fun w => if w.id = v.id then (w.touch h s.now).getD w else w),
                          now := s.now, rr := s.rr } g :=
-        prot_map hp _ _ (fun h' t p hg _ w _ => keeps_if (keeps_touch h h' t s.now w (hle h' t p hg)))
+        prot_map hp _ _ (fun h' t hg _ w _ => keeps_if (keeps_touch h h' t s.now w (hle h' t hg)))
       simp only [ghostStep, ackOf]
-      exact prot_ack (s := { vols := _, now := s.now, rr := s.rr }) h1 h false
-        (holds_after_touch hv hro hf (fun hc => by cases hc))
+      exact prot_ack (s := { vols := _, now := s.now, rr := s.rr }) h1 h (holds_after_touch hv hro hf)
     · simpa [ghostStep, ackOf] using hp
   | get h => simpa [step, ghostStep, ackOf] using hp
   | delete h =>
@@ -321,13 +307,13 @@ theorem prot_step {c : Cfg} {s : St} {g : Ghost} (hp : Prot c s g) (op : Op) (hs
     · split
       · simpa [ghostStep, ackOf] using hp
       · simp only [ghostStep, ackOf]
-        exact prot_map hp _ _ (fun h' t _ _ hlt v _ => keeps_delVol c s.now v h h' t hlt)
+        exact prot_map hp _ _ (fun h' t _ hlt v _ => keeps_delVol c s.now v h h' t hlt)
   | trashItem h req mount =>
     simp only [step]
     split
     · simpa [ghostStep, ackOf] using hp
     · simp only [ghostStep, ackOf]
-      exact prot_map hp _ _ (fun h' t _ _ hlt v _ => keeps_tiVol c s.now v h h' req mount t hlt)
+      exact prot_map hp _ _ (fun h' t _ hlt v _ => keeps_tiVol c s.now v h h' req mount t hlt)
   | untrash h =>
     simp only [step]
     split
@@ -335,25 +321,180 @@ theorem prot_step {c : Cfg} {s : St} {g : Ghost} (hp : Prot c s g) (op : Op) (hs
     · split
       · simpa [ghostStep, ackOf] using hp
       · simp only [ghostStep, ackOf]
-        exact prot_map hp _ _ (fun h' t _ _ _ v hv => keeps_untrashVol v h h' t (hsafe v hv))
+        exact prot_map' hp _ _ _ (Nat.le_add_right _ _)
+          (fun h' t hg _ v _ => keeps_untrashVol v h h' t _ (Nat.le_trans (hle h' t hg) (Nat.le_add_right _ _)))
   | emptyTrash =>
     simp only [step, ghostStep, ackOf]
-    exact prot_map hp _ _ (fun h' t _ _ _ v _ => keeps_sweep c s.now v h' t)
+    exact prot_map hp _ _ (fun h' t _ _ v _ => keeps_sweep c s.now v h' t)
   | tick d =>
     simp only [step, ghostStep, ackOf]
-    intro h t p hg
-    obtain ⟨h1, h2⟩ := hp h t p hg
+    intro h t hg
+    obtain ⟨h1, h2⟩ := hp h t hg
     exact ⟨Nat.le_trans h1 (Nat.le_add_right _ _), fun hlt => h2 (Nat.lt_of_le_of_lt (Nat.le_add_right _ _) hlt)⟩
   | unauth k => simpa [step, ghostStep, ackOf] using hp
 
-theorem prot_run {c : Cfg} : ∀ (ops : List Op) (s : St) (g : Ghost), Prot c s g → SafeOps c s ops →
+theorem prot_run {c : Cfg} : ∀ (ops : List Op) (s : St) (g : Ghost), Prot c s g →
     Prot c (runG c s g ops).1 (runG c s g ops).2 := by
   intro ops
   induction ops with
-  | nil => intro s g hp _; exact hp
+  | nil => intro s g hp; exact hp
   | cons op ops ih =>
-    intro s g hp hs
-    exact ih _ _ (prot_step hp op hs.1) hs.2
+    intro s g hp
+    exact ih _ _ (prot_step hp op)
+
+/-! ### content: if no copy on the server is corrupt, none ever becomes corrupt -/
+
+def VolGood (v : Vol) : Prop :=
+  (∀ h f, v.blocks h = some f → f.good = true) ∧ (∀ e ∈ v.trash, e.file.good = true)
+
+def AllGood (s : St) : Prop := ∀ v ∈ s.vols, VolGood v
+
+theorem volGood_setBlock {v : Vol} (hv : VolGood v) (h : Hash) (x : Option File)
+    (hx : ∀ f, x = some f → f.good = true) : VolGood (v.setBlock h x) := by
+  refine ⟨fun h' f hf => ?_, hv.2⟩
+  by_cases he : h' = h
+  · subst he; simp only [Vol.setBlock, if_true] at hf; exact hx f hf
+  · simp only [Vol.setBlock, he, if_false] at hf; exact hv.1 h' f hf
+
+theorem volGood_touch {v : Vol} (hv : VolGood v) (h : Hash) (now : Time) : VolGood ((v.touch h now).getD v) := by
+  unfold Vol.touch
+  split
+  · exact hv
+  · split
+    · exact hv
+    · rename_i f hf
+      exact volGood_setBlock hv h _ (fun f' hf' => by cases hf'; exact hv.1 h f hf)
+
+theorem volGood_write {v : Vol} (hv : VolGood v) (h : Hash) (now : Time) : VolGood (v.write h now) :=
+  volGood_setBlock hv h _ (fun f' hf' => by cases hf'; rfl)
+
+theorem volGood_trashBlock {v : Vol} (hv : VolGood v) (c : Cfg) (now : Time) (h : Hash) :
+    VolGood (Vol.trashBlock c now v h).2 := by
+  unfold Vol.trashBlock
+  split
+  · exact hv
+  · split
+    · exact hv
+    · rename_i f hf
+      split
+      · exact hv
+      · split
+        · exact volGood_setBlock hv h none (fun f' hf' => by cases hf')
+        · have h1 := volGood_setBlock hv h none (fun f' hf' => by cases hf')
+          refine ⟨h1.1, fun e he => ?_⟩
+          simp only [trashInsert, List.mem_cons, List.mem_filter] at he
+          cases he with
+          | inl he => subst he; exact hv.1 h f hf
+          | inr he => exact hv.2 e he.1
+
+theorem minEntry_mem {h : Hash} {es : List TrashEnt} {m : TrashEnt} (hm : minEntry h es = some m) : m ∈ es := by
+  induction es generalizing m with
+  | nil => simp [minEntry] at hm
+  | cons x xs ih =>
+    unfold minEntry at hm
+    split at hm
+    · split at hm
+      · rename_i m' hm'
+        split at hm
+        · cases hm; exact List.mem_cons_of_mem _ (ih hm')
+        · cases hm; exact List.mem_cons_self
+      · cases hm; exact List.mem_cons_self
+    · exact List.mem_cons_of_mem _ (ih hm)
+
+theorem volGood_untrashVol {v : Vol} (hv : VolGood v) (h : Hash) (now : Time) : VolGood (untrashVol h now v) := by
+  unfold untrashVol
+  split
+  · exact hv
+  · unfold Vol.untrash
+    split
+    · exact hv
+    · rename_i e he
+      simp only [Option.getD_some]
+      have h1 := volGood_setBlock hv h (some { e.file with mtime := now })
+        (fun f' hf' => by cases hf'; exact hv.2 e (minEntry_mem he))
+      exact ⟨h1.1, fun x hx => hv.2 x (List.mem_filter.mp hx).1⟩
+
+theorem volGood_sweep {v : Vol} (hv : VolGood v) (c : Cfg) (now : Time) : VolGood (sweepVol c now v) := by
+  unfold sweepVol Vol.emptyTrash
+  split
+  · exact hv
+  · split
+    · exact hv
+    · exact ⟨hv.1, fun x hx => hv.2 x (List.mem_filter.mp hx).1⟩
+
+theorem allGood_map {vs : List Vol} {F : Vol → Vol} (hk : ∀ v, VolGood v → VolGood (F v))
+    (hg : ∀ v ∈ vs, VolGood v) : ∀ v ∈ vs.map F, VolGood v := by
+  intro v hv
+  obtain ⟨w, hw, rfl⟩ := List.mem_map.mp hv
+  exact hk w (hg w hw)
+
+theorem volGood_if {v v' : Vol} {p : Prop} [Decidable p] (hv : VolGood v) (hv' : VolGood v') :
+    VolGood (if p then v' else v) := by
+  split
+  · exact hv'
+  · exact hv
+
+theorem allGood_step {c : Cfg} {s : St} (hg : AllGood s) (op : Op) : AllGood (step c s op).1 := by
+  cases op with
+  | put h goodBody =>
+    simp only [step]
+    split
+    · exact hg
+    · split
+      · exact hg
+      · split
+        · exact allGood_map (fun v hv => volGood_if hv (volGood_touch hv h s.now)) hg
+        · split
+          · exact allGood_map (fun v hv => volGood_if hv (volGood_write hv h s.now)) hg
+          · exact hg
+  | touch h =>
+    simp only [step]
+    split
+    · exact allGood_map (fun v hv => volGood_if hv (volGood_touch hv h s.now)) hg
+    · exact hg
+  | get h => exact hg
+  | delete h =>
+    simp only [step]
+    split
+    · exact hg
+    · split
+      · exact hg
+      · refine allGood_map (fun v hv => ?_) hg
+        unfold delVol
+        split
+        · exact hv
+        · exact volGood_trashBlock hv c s.now h
+  | trashItem h req mount =>
+    simp only [step]
+    split
+    · exact hg
+    · refine allGood_map (fun v hv => ?_) hg
+      unfold tiVol
+      split
+      · split
+        · split
+          · exact volGood_trashBlock hv c s.now h
+          · exact hv
+        · exact hv
+      · exact hv
+  | untrash h =>
+    simp only [step]
+    split
+    · exact hg
+    · split
+      · exact hg
+      · exact allGood_map (fun v hv => volGood_untrashVol hv h _) hg
+  | emptyTrash =>
+    simp only [step]
+    exact allGood_map (fun v hv => volGood_sweep hv c s.now) hg
+  | tick d => exact hg
+  | unauth k => exact hg
+
+theorem allGood_runG {c : Cfg} : ∀ (ops : List Op) (s : St) (g : Ghost), AllGood s → AllGood (runG c s g ops).1 := by
+  intro ops
+  induction ops with
+  | nil => intro s g hg; exact hg
+  | cons op ops ih => intro s g hg; exact ih _ _ (allGood_step hg op)
 
 /-- GetBlock answers 200 as soon as some volume holds an intact copy -/
 theorem getStatus_200 {h : Hash} : ∀ (vs : List Vol) (acc : Nat),
